@@ -788,7 +788,37 @@ func replayers() map[string]ev.Replayer {
 		_, e := runCase(c)
 		return e
 	}
-	return map[string]ev.Replayer{"trace": f, "odometer": f}
+	type wcase struct {
+		Wire ev.Hex `json:"wire"`
+		Seg  int    `json:"seg"`
+	}
+	// a saved wire: what a specification receiver reads from it is what the library has to read
+	wire := func(raw json.RawMessage) error {
+		var c wcase
+		if err := json.Unmarshal(raw, &c); err != nil {
+			return err
+		}
+		res, err := rtmpref.NewDechunker().Dechunk(c.Wire)
+		if err != nil {
+			return fmt.Errorf("harness: the saved wire is not a conformant chunk stream: %v", err)
+		}
+		return readAll(c.Wire, c.Seg, res.Msgs)
+	}
+	// conformant messages followed by the 14-byte librtmp ping (fmt 1 on a fresh chunk stream 2)
+	ping := func(raw json.RawMessage) error {
+		var c wcase
+		if err := json.Unmarshal(raw, &c); err != nil || len(c.Wire) < 14 {
+			return fmt.Errorf("harness: bad librtmp-ping replay case (%v)", err)
+		}
+		pre, pg := c.Wire[:len(c.Wire)-14], c.Wire[len(c.Wire)-14:]
+		res, err := rtmpref.NewDechunker().Dechunk(pre)
+		if err != nil {
+			return fmt.Errorf("harness: the saved prefix is not a conformant chunk stream: %v", err)
+		}
+		want := append(res.Msgs, rtmpref.Msg{Type: 4, Timestamp: uint32(pg[1])<<16 | uint32(pg[2])<<8 | uint32(pg[3]), Payload: pg[8:]})
+		return readAll(c.Wire, c.Seg, want)
+	}
+	return map[string]ev.Replayer{"trace": f, "odometer": f, "known-ext-delta": wire, "librtmp-ping": ping}
 }
 
 func TestRegress(t *testing.T) { ev.Regress(t, prop, replayers()) }
